@@ -151,6 +151,37 @@ func init() {
 					add("trailing-garbage-crc-fixed", crc, m, pick())
 				}
 			}
+			// token probes: VALID streams (consistent size and CRC) built token by token with the canonical coder,
+			// of shapes no encoder emits: a match as the very first token, matches that reach into the initial
+			// window (blanks, and the NUL slots behind it) at every boundary distance, after 0..61 literals
+			for _, k := range []int{0, 1, 2, 3, 59, 60, 61} {
+				for _, l := range []int{3, 4, 59, 60} {
+					for _, p := range []int{0, 1, 2, k - 1, k, k + 1, 58, 59, 60, 61, 1986, 1987, 1988, 1989, 2046, 2047, k + 1987, k + 1988} {
+						if p < 0 || p > 2047 || (len(seeds) > 0 && !c.TimeLeft()) {
+							continue
+						}
+						var toks []canonTok
+						for j := 0; j < k; j++ {
+							toks = append(toks, canonTok{lit: byte('A' + j%26)})
+						}
+						toks = append(toks, canonTok{length: l, pos: p}, canonTok{lit: 'y'}, canonTok{lit: 'z'})
+						body, size := canonEncodeTokens(toks)
+						add("token-probe", crc, canonStreamOf(crc, body, size), pick())
+					}
+				}
+			}
+			for i := 0; i < c.Budget(60, 1500); i++ {
+				var toks []canonTok
+				for j := 1 + c.Rng.Intn(12); j > 0; j-- {
+					if c.Rng.Intn(2) == 0 {
+						toks = append(toks, canonTok{lit: byte(c.Rng.Intn(256))})
+					} else {
+						toks = append(toks, canonTok{length: 3 + c.Rng.Intn(58), pos: []int{c.Rng.Intn(2048), 2047 - c.Rng.Intn(62), c.Rng.Intn(4)}[c.Rng.Intn(3)]})
+					}
+				}
+				body, size := canonEncodeTokens(toks)
+				add("token-probe", crc, canonStreamOf(crc, body, size), pick())
+			}
 			// random bytes
 			for i := 0; i < c.Budget(400, 6000); i++ {
 				b := make([]byte, c.Rng.Intn(300))
